@@ -126,6 +126,7 @@ func c12NewHWith(a *Args, cfg EnvCfg) *c12H {
 
 type c12Item struct {
 	Det   string `json:"det"`
+	Raw   string `json:"raw,omitempty"` // when set: the (non-numeric) price string sent instead of Price
 	Price int64  `json:"price"`
 	Dec   int32  `json:"dec"`
 	TS    string `json:"ts"` // the string put into the message
@@ -236,7 +237,7 @@ func (m c12Msg) coq() string {
 	for _, s := range m.Prices {
 		is := []string{}
 		for _, it := range s.Prices {
-			is = append(is, cApp("mkPI", cStr(it.Det), cZ(it.Price), cZ(int64(it.Dec)), cZ(c12TS(it.TS))))
+			is = append(is, cApp("mkPI", cStr(it.Det), cZ(it.Price), cZ(int64(it.Dec)), cZ(c12TS(it.TS)), cBool(it.Raw == "")))
 		}
 		ss = append(ss, cApp("mkPS", cZ(int64(s.ID)), cList(is)))
 	}
@@ -364,6 +365,13 @@ func (h *c12H) dump(ctx sdk.Context) c12State {
 
 func (h *c12H) workerCoq(wk aggregator.VerifC12Worker, st *c12State) string {
 	anomaly := false
+	cZstr := func(x string) string { // a nil *big.Int in memory (dumped as "nil") is outside the model: mark the dump
+		if _, ok := new(big.Int).SetString(x, 10); !ok {
+			anomaly = true
+			return "0%Z"
+		}
+		return cZbig(func() *big.Int { b, _ := new(big.Int).SetString(x, 10); return b }())
+	}
 	st.sealed[wk.FeederID] = wk.Sealed
 	price := c12OptZ(wk.Price)
 	if wk.HasF != wk.HasC || wk.HasC != wk.HasA || wk.Sealed == wk.HasF {
@@ -492,7 +500,11 @@ func (h *c12H) buildMsg(m c12Msg) *oracletypes.MsgCreatePrice {
 	for _, s := range m.Prices {
 		ps := &oracletypes.PriceSource{SourceID: s.ID, Desc: strings.Repeat("x", s.Pad)}
 		for _, it := range s.Prices {
-			ps.Prices = append(ps.Prices, &oracletypes.PriceTimeDetID{Price: fmt.Sprintf("%d", it.Price), Decimal: it.Dec, Timestamp: it.TS, DetID: it.Det})
+			priceStr := fmt.Sprintf("%d", it.Price)
+			if it.Raw != "" {
+				priceStr = it.Raw
+			}
+			ps.Prices = append(ps.Prices, &oracletypes.PriceTimeDetID{Price: priceStr, Decimal: it.Dec, Timestamp: it.TS, DetID: it.Det})
 		}
 		msg.Prices = append(msg.Prices, ps)
 	}
@@ -884,7 +896,12 @@ func (g *c12Gen) freshMsg(st c12State, v int, fid uint64, now time.Time) (c12Msg
 func (g *c12Gen) mutate(m *c12Msg, st c12State, now time.Time) string {
 	r := g.h.rng
 	mn := g.p.MaxNonce
-	switch r.Intn(22) {
+	switch r.Intn(23) {
+	case 22:
+		// a price string that is not a number
+		k := len(m.Prices[0].Prices) - 1
+		m.Prices[0].Prices[k].Raw = []string{"abc", " ", "1e5", "0x10", "12.5"}[r.Intn(5)]
+		return "price=non-numeric"
 	case 0:
 		m.Base++
 		return "base+1"
